@@ -18,8 +18,7 @@ REPO_EXC = {'ProphycError': 'Exception', 'model.ParseError': 'Exception', 'Model
 ALLOWED = ('ProphycError', 'SystemExit')
 
 
-def ws(s):
-    return re.sub(r'\s+', ' ', s)
+from ..pyfront import ws  # noqa: E402,F401  (whitespace-collapsed, rename/normal-form tolerant `in`)
 
 
 def dispatch(ctx):
